@@ -6,26 +6,6 @@ CI = 'Obj("core.connection_impl.ConnectionImpl")'
 MSG = 'Obj("core.wl.message.Message")'
 OBJ = 'Obj("core.wl.object.ObjectBase")'
 
-# protocol look-ups: decorate only (their own contracts are C07)
-for _n, _ret in (('get_arg_name', 'Opt(str)'), ('look_up_interface', 'Opt(str)')):
-    @contract('core.wl.protocol.' + _n)
-    def _(c, _ret=_ret):
-        c.trusted('C07: protocol table look-up; reads the loaded descriptions only; RuntimeError for a message/argument the description does not list')
-        c.returns(_ret)
-        c.raises('RuntimeError', when=None, exact=False)
-        c.epoch_preserving()
-
-
-@contract('core.wl.protocol.look_up_enum')
-def _(c):
-    c.trusted('C07: enum labels of an argument value; new list; RuntimeError as for get_arg')
-    c.returns('List(str)')
-    c.raises('RuntimeError', when=None, exact=False)
-    c.ensures('fresh(result)')
-    c.modifies('new')
-    c.epoch_preserving()
-
-
 @contract('core.wl.arg.Arg.Base.__str__')
 def _(c):
     c.trusted('pure and total string builder (colour behaviour: C17)').interface().pure()
@@ -64,6 +44,7 @@ def _(c):
 
 @contract('core.wl.arg.Arg.Base.resolve')
 def _(c):
+    c.requires('index >= 0', 'argument_positions_are_not_negative')
     c.prop('C02', 'C07')
     c.types(conn=CI, message=MSG)
     c.ensures('old(self.name) is None or self.name == old(self.name)', 'given_name_kept')
@@ -73,6 +54,7 @@ def _(c):
 
 @contract('core.wl.arg.Arg.Int.resolve')
 def _(c):
+    c.requires('index >= 0', 'argument_positions_are_not_negative')
     c.prop('C02', 'C07')
     c.types(conn=CI, message=MSG)
     c.ensures('old(self.name) is None or self.name == old(self.name)', 'given_name_kept')
@@ -81,6 +63,7 @@ def _(c):
 
 @contract('core.wl.arg.Arg.Null.resolve')
 def _(c):
+    c.requires('index >= 0', 'argument_positions_are_not_negative')
     c.prop('C02', 'C07')
     c.types(conn=CI, message=MSG)
     c.ensures('old(self.type) is None or self.type == old(self.type)', 'given_type_kept')
@@ -114,6 +97,7 @@ def _gen_arg_object(rnd):
 
 @contract('core.wl.arg.Arg.Object.resolve')
 def _(c):
+    c.requires('index >= 0', 'argument_positions_are_not_negative')
     c.prop('C02', 'C03')
     c.types(conn=CI, message=MSG)
     c.requires('inv_conn(conn)')
@@ -146,6 +130,7 @@ def _(c):
 
 @contract('core.wl.arg.Arg.Array.resolve')
 def _(c):
+    c.requires('index >= 0', 'argument_positions_are_not_negative')
     c.prop('C02')
     c.types(conn=CI, message=MSG)
     c.requires('self.values is None or all(isinstance(self.values[k], Int) for k in range(0, len(self.values)))', 'array_elements_are_integers')
